@@ -21,6 +21,18 @@ def dim(fn, t, depth=0):
         return None
     if t[0] == "field" and t[2] == "0" and t[3] == "repr::vtree::VTreeIndex":
         return "DFS"
+    if t[0] == "deref" and len(t) > 1:
+        return dim(fn, t[1], depth + 1)
+    if t[0] == "field" and t[2] == "0" and isinstance(t[1], tuple) and t[1] and t[1][0] == "as" and t[1][2] in ("Some", "Continue"):
+        # the payload of a checked lookup `tab.get(i)` (matched, or unwrapped with `?`)
+        g = strip(t[1][1])
+        if mir.is_call(g) and g[1].name == "branch" and g[2]:
+            g = strip(g[2][0])
+        if mir.is_call(g) and g[1].name in ("get", "get_mut") and len(g[2]) == 2 and ("slice" in g[1].key() or "Vec" in g[1].key()):
+            tab = show(strip(g[2][0])).split(".")[-1]
+            if tab in TABLES:
+                return TABLES[tab][1]
+        return None
     if t[0] == "call":
         nm = t[1].name
         if nm in ("index",) and len(t[2]) == 2:
@@ -49,7 +61,8 @@ def run(prog):
             continue
         te = fn.terms
         for cs in te.calls:
-            if cs.callee.name == "index" and len(cs.args) == 2:
+            if (cs.callee.name == "index" or (cs.callee.name in ("get", "get_mut") and
+                                              ("slice" in cs.callee.key() or "Vec" in cs.callee.key()))) and len(cs.args) == 2:
                 tab = show(strip(cs.args[0])).split(".")[-1]
                 if tab not in TABLES:
                     continue
